@@ -123,6 +123,8 @@ def run_conditions(run, path, conds, engine="E1:crosshair", env_extra=None, work
                 run.error(name, "cannot parse CrossHair counterexample: " + msg[:300])
                 continue
             call = cm.group("call").strip()
+            if " with crosshair.patch_to_return(" in call:
+                call = call[:call.index(" with crosshair.patch_to_return(")].strip()
             ok, detail, code = replay_call(path, call)
             if not ok:
                 run.error(name, "counterexample did not reproduce under plain CPython: %s -> %s" % (call, detail))
